@@ -1,5 +1,5 @@
 //! C13 — polynomial helpers against the definitional reference R2, exhaustively over all
-//! coefficient vectors of length ≤ 4 (thorough: ≤ 7, extension fields ≤ 5) over a four-letter alphabet, for every
+//! coefficient vectors of length ≤ 4 (thorough: ≤ 8, extension fields ≤ 5) over a four-letter alphabet, for every
 //! supported field and extension.
 
 use mck::{json, Args, Report, Violation};
@@ -290,7 +290,7 @@ fn sweep<E: FieldElement>(name: &str, alpha: &[E], maxlen: usize, pair_len: usiz
 pub fn run(args: &Args) {
     let mut report = Report::new(args, "exploration");
     let thorough = args.tier == mck::Tier::Thorough;
-    let (maxlen, pair_len) = if thorough { (7, 5) } else { (4, 3) };
+    let (maxlen, pair_len) = if thorough { (8, 5) } else { (4, 3) };
     // extension fields: one step less than the base fields
     let (xl, xp) = if thorough { (5, 4) } else { (4, 3) };
     use f128::BaseElement as B128;
